@@ -22,6 +22,8 @@ func queueVariant() Variant {
 			v.Requests = append(v.Requests, tmpl{who: who, n: n})
 		}
 	}
+	// interval 0 is a valid message: due at the height it was made in, served by the next begin-block
+	v.Requests = append(v.Requests, tmpl{who: "A", n: 0})
 	return v
 }
 
@@ -34,6 +36,15 @@ func oracleVariant() Variant {
 // QueueVariant / OracleVariant expose the two explorations for reuse by the cross-cutting checks (C13).
 func QueueVariant() Variant  { return queueVariant() }
 func OracleVariant() Variant { return oracleVariant() }
+
+// OracleChoiceVariant: three providers are bound to the seed service, so every oracle request makes the
+// module choose one (used by the determinism check C11).
+func OracleChoiceVariant() Variant {
+	v := oracleVariant()
+	v.Name = "oracle-choice"
+	v.ExtraProviders = 2
+	return v
+}
 
 // withStats adds the coverage counters of the variant to the part's evidence bounds.
 func withStats(p mc.Part, v Variant, alphabet string) mc.Part {
@@ -72,7 +83,7 @@ func Parts() []mc.Part {
 	return []mc.Part{
 		KernelPart(),
 		withStats(mc.ExplorePart("queue", New(q), 8, 9, true, rule), q,
-			"request(consumer in {A,B}, interval in {1,2,3}, plain), block (5..7 s); blockers: random"),
+			"request(consumer in {A,B}, interval in {1,2,3} and (A,0), plain), block (5..7 s); blockers: random"),
 		withStats(mc.ExplorePart("oracle", New(o), 8, 10, true, rule), o,
 			"request(A,1,oracle), request(B,1,oracle), request(A,2,oracle), request(A,1,plain), respond(active seed request, {valid seed, malformed seed, error result}), block (no response within 2 blocks = timeout); blockers: service, random"),
 	}
